@@ -52,6 +52,11 @@ type Zlisp struct {
 
 	// API use, since infix is already default at repl
 	WrapLoadExpressionsInInfix bool
+
+	// sandboxed is set by NewZlispSandbox: later setup calls must not
+	// install anything that reaches the outside world, and the compiler
+	// refuses the include form.
+	sandboxed bool
 }
 
 // allow clients to establish a callback to
@@ -90,7 +95,9 @@ func (env *Zlisp) Close() error {
 // NewZlispSandbox returns a new *Zlisp instance that does not allow the
 // user to get to the outside world
 func NewZlispSandbox() *Zlisp {
-	return NewZlispWithFuncs(SandboxSafeFunctions())
+	env := NewZlispWithFuncs(SandboxSafeFunctions())
+	env.sandboxed = true
+	return env
 }
 
 // NewZlispWithFuncs returns a new *Zlisp instance with access to only the given builtin functions
@@ -173,6 +180,7 @@ func (env *Zlisp) Clone() *Zlisp {
 	dupenv.before = env.before
 	dupenv.after = env.after
 	dupenv.infixOps = env.infixOps
+	dupenv.sandboxed = env.sandboxed
 	dupenv.linearstack.Push(env.linearstack.elements[0])
 
 	dupenv.mainfunc = env.MakeFunction("__main", 0, false,
@@ -204,6 +212,7 @@ func (env *Zlisp) Duplicate() *Zlisp {
 	dupenv.before = env.before
 	dupenv.after = env.after
 	dupenv.infixOps = env.infixOps
+	dupenv.sandboxed = env.sandboxed
 
 	dupenv.linearstack.Push(env.linearstack.elements[0])
 
